@@ -19,8 +19,9 @@ FAMILY = {
     'C11': {'lookups_agree'},
 }
 
-MC_ACTIONS = ['Begin', 'Abort', 'Commit', 'SGet', 'SetSTok', 'SUnget', 'SWriteEntity', 'CGet', 'CMk', 'SetCTok',
-              'CDisAll', 'CEntUpdate', 'CEntNew', 'CEntDelete', 'DGet', 'SetDTok', 'DAdd', 'DRemove', 'DGetState', 'DWriteEntity', 'DNewEntity', 'MutateCopy']
+MC_ACTIONS = ['Begin', 'Abort', 'Commit', 'SGet', 'SetSTok', 'SUnget', 'SWriteEntityAs', 'CGet', 'CMk', 'SetCTok',
+              'CDisAll', 'CEntUpdate', 'CEntNew', 'CEntDelete', 'DGet', 'SetDTok', 'DAdd', 'DRemove', 'DGetState', 'DWriteEntityAs', 'DNewEntity', 'MutateCopy',
+              'KeepEntity', 'DWriteEntityCtx']
 
 
 class C03Replayer(MdibReplayer):
@@ -78,6 +79,19 @@ class C03Replayer(MdibReplayer):
                         apply_tok(st, t)
                 else:
                     apply_tok(ent.state, t)
+        elif src in ('kept_upd', 'kept_new'):   # the kept entity, refreshed from the MDIB with update(), then changed
+            ent = self.kept
+            ent.update()
+            if src == 'kept_upd':
+                apply_tok(ent.descriptor, t)
+                for st in (ent.states.values() if ent.is_multi_state else [ent.state]):
+                    apply_tok(st, t)
+            else:   # only what update() newly put into the entity (states that did not exist when it was obtained)
+                if ent.is_multi_state:
+                    for h, st in ent.states.items():
+                        if h not in self.kept_states:
+                            apply_tok(st, t)
+            self.kept_states = set(getattr(ent, 'states', {}) or {})
         elif src == 'result':   # members of the last transaction result
             if self.results:
                 res = self.results[-1][0]
